@@ -646,6 +646,11 @@ theorem ifft_fft_id (t1 t2 k : Nat) (a : List F) (ω : F) (hlen : a.length = 2 ^
     rw [hg]
     field_simp
 
+/-- Non-vacuity over ℚ (`k = 1`, `ω = −1`), recursive path forward, iterative path back. -/
+example : (bestFft 1 [(3 : ℚ), 5] (-1) 1).bind
+    (fun e => ifft 2 e (-1)⁻¹ 1 ((2 ^ 1 : Nat) : ℚ)⁻¹) = some [3, 5] := by
+  decide +kernel
+
 /-- `lagrange_interpolate_spec`: for every list of pairwise distinct points and as many values
 (over a field), `lagrange_interpolate` returns a coefficient vector of the same length whose
 polynomial takes the given value at each point (the documented panics — length mismatch, repeated
